@@ -43,10 +43,10 @@ def fn_tags(unit, qual, extracted):
 
 
 def diag_relevant(unit, d, prop, extracted):
+    # any failed obligation of a function mapped to the property counts: a broken postcondition of a callee is what
+    # the panic-freedom (or the postcondition) of its callers was proved from
     props, panic = fn_tags(unit, d.func, extracted)
-    if d.func in extracted and d.kind in verus_run.PANIC_KINDS:
-        return prop in panic
-    return prop in props
+    return prop in (props | panic)
 
 
 def known_match(known, prop, unit_name, d):
